@@ -196,6 +196,17 @@ func c04Scheds(rng *hx.Rng) []c04Sched {
 				return doubles.Delivery{Copies: 1}
 			}
 		}},
+		// the first attempt to send a PUBLIC KEY to one member is lost the way the real transport loses a
+		// request: Request returns its own 5 s deadline wrapped in a P2PError while the session is alive.
+		// Nobody can finish before that key arrives, so the retry must happen: liveness is judged
+		{"public-key-request-times-out", nil, func(ids [][]byte) func(from, to []byte, m proto.Message, attempt int) doubles.Delivery {
+			return func(from, to []byte, m proto.Message, attempt int) doubles.Delivery {
+				if _, isKey := m.(*dkg.PublicKey); isKey && attempt == 1 && string(to) == string(ids[2%len(ids)]) {
+					return doubles.Delivery{Fail: true, Err: fmt.Errorf("IP : 127.0.0.1:1: Request waitForResult: %w", context.DeadlineExceeded)}
+				}
+				return doubles.Delivery{Copies: 1}
+			}
+		}},
 		{"transient-send-failure", nil, func(ids [][]byte) func(from, to []byte, m proto.Message, attempt int) doubles.Delivery {
 			return func(from, to []byte, m proto.Message, attempt int) doubles.Delivery {
 				if attempt == 1 && string(to) == string(ids[2%len(ids)]) {
